@@ -402,7 +402,10 @@ func (l *leader) notifyFlr(includeConfig bool) {
 		commitIndex: l.commitIndex,
 	}
 	if includeConfig {
-		update.config = &l.configs.Latest
+		// a copy: the replication reads it later, concurrently with the
+		// next configuration change
+		config := l.configs.Latest
+		update.config = &config
 	}
 	for _, repl := range l.repls {
 		select {
